@@ -71,6 +71,12 @@ class Prop(PropBase):
                 s = rng.choice(SPLITS + [rng.randrange(36000)])
                 dual = rng.random() < 0.3
                 cfg = pktgen.Cfg(angle=s, pktcb=1, wait=1)
+                if r % 2 == 1:
+                    # a restricted field of view that does NOT contain the split angle (or starts exactly at it): frames are
+                    # cut by the azimuth of the blocks, whether or not their points survive the window
+                    w = rng.choice([3000, 9000, 17000])
+                    st_ = (s + rng.choice([0, 1, 100, 9000])) % 36000
+                    cfg.start, cfg.end = st_, (st_ + w) % 36000
                 lines = [f'S c03_{name}_{r}_s{s}', cfg.line(0, l), 'I 0', 'W 10', 'P 0 ' + l.difop(dual=dual, rpm=rng.choice([300, 600, 1200])).hex()]
                 # start within a few steps before the split angle so boundaries happen early
                 az = (s - rng.choice([0, 1, 19, 20, 21, 50, 399, 5000])) % 36000
